@@ -54,7 +54,9 @@ def gen_set(rng):
         if r < 0.4:
             items.append(("ch", rng.choice("abc019_")))
         elif r < 0.6:
-            lo, hi = rng.choice([("a", "c"), ("0", "9"), ("a", "b"), ("b", "b"), ("A", "Z"), ("0", "1")])
+            lo, hi = rng.choice([("a", "c"), ("0", "9"), ("a", "b"), ("b", "b"), ("A", "Z"), ("0", "1"),
+                                 # wide ranges, whose interior holds '-', '^', ']' and other metacharacters
+                                 (" ", "~"), ("!", "/"), ("%", "9"), ("A", "z"), ("!", "~")])
             items.append(("range", lo, hi))
         elif r < 0.75:
             items.append(("meta", rng.choice(list("+*.()|?$"))))
@@ -69,6 +71,11 @@ def gen_set(rng):
     if rng.random() < 0.15:
         # a set that starts with a range and ends with a literal dash: [a-c-]
         items = [("range",) + rng.choice([("a", "c"), ("0", "9"), ("A", "Z")])] + items[:1] + [("dash",)]
+    # the library turns a set into a union of its members, one alternative per listed character: at most one wide
+    # range per set keeps that union within what its recursive reader can take (a resource bound, not a judgement)
+    wide = [it for it in items if it[0] == "range" and ord(it[2]) - ord(it[1]) > 30]
+    for it in wide[1:]:
+        items.remove(it)
     return ("set", neg, tuple(items))
 
 
@@ -86,10 +93,35 @@ def gen_atom(rng):
 
 
 QUANTS = [("*",), ("+",), ("?",), ("rep", 0), ("rep", 1), ("rep", 2), ("rep", 3), ("rep2", 0, 1), ("rep2", 1, 2),
-          ("rep2", 2, 2), ("rep2", 0, 2), ("rep2", 1, 3), ("rep2", 0, 0)]
+          ("rep2", 2, 2), ("rep2", 0, 2), ("rep2", 1, 3), ("rep2", 0, 0),
+          # bounds with two digits (m < n as numbers, m > n as texts) and a large single bound
+          ("rep2", 2, 10), ("rep2", 9, 11), ("rep2", 1, 10), ("rep", 10), ("rep2", 10, 12)]
+
+
+def expansion(t):
+    """how many copies of its atoms the rewriting of the counted repetitions makes (a resource bound for the generator:
+    the library expands {m,n} textually, patterns that blow up are not what is being judged)"""
+    k = t[0]
+    if k == "q":
+        q = t[2]
+        rep = {"rep": lambda: max(q[1], 1), "rep2": lambda: max(q[2], 1)}.get(q[0], lambda: 1)()
+        return rep * expansion(t[1])
+    if k in ("cat", "alt"):
+        return expansion(t[1]) + expansion(t[2])
+    if k == "grp":
+        return expansion(t[1])
+    return 1
 
 
 def gen(rng, d):
+    for _ in range(20):
+        t = gen0(rng, d)
+        if expansion(t) <= 40:
+            return t
+    return gen0(rng, 0)
+
+
+def gen0(rng, d):
     r = rng.random()
     if d == 0 or r < 0.3:
         a = gen_atom(rng)
@@ -97,10 +129,10 @@ def gen(rng, d):
             return ("q", a, rng.choice(QUANTS))
         return a
     if r < 0.6:
-        return ("cat", gen(rng, d - 1), gen(rng, d - 1))
+        return ("cat", gen0(rng, d - 1), gen0(rng, d - 1))
     if r < 0.78:
-        return ("alt", gen(rng, d - 1), gen(rng, d - 1))
-    g = ("grp", gen(rng, d - 1))
+        return ("alt", gen0(rng, d - 1), gen0(rng, d - 1))
+    g = ("grp", gen0(rng, d - 1))
     if rng.random() < 0.6:
         return ("q", g, rng.choice(QUANTS))
     return g
